@@ -110,7 +110,10 @@ func (l *Lexer) NextToken() token.Token {
 		tok := l.bracesToken(token.LBRACES, "{{")
 
 		if l.char == '-' && l.peekChar() == '-' {
-			l.skipComment()
+			if !l.skipComment() {
+				return l.newToken(token.ILLEGAL, "{{--")
+			}
+
 			return l.NextToken()
 		}
 
@@ -582,23 +585,22 @@ func (l *Lexer) skipWhitespace() {
 	}
 }
 
-func (l *Lexer) skipComment() {
-	for l.char != 0 {
-		if l.char != '-' || l.peekChar() != '-' {
-			l.readChar()
-			continue
-		}
-
-		l.readChar() // skip "-"
-		l.readChar() // skip "-"
-
-		if l.char == '}' || l.peekChar() == '}' {
-			break
-		}
-	}
-
+// skipComment skips everything up to and including the comment
+// terminator and reports whether the terminator was found
+func (l *Lexer) skipComment() bool {
 	l.isHTML = true
 
-	l.readChar() // skip "}"
-	l.readChar() // skip "}"
+	for l.char != 0 {
+		if strings.HasPrefix(l.input[l.pos:], "--}}") {
+			l.readChar() // skip "-"
+			l.readChar() // skip "-"
+			l.readChar() // skip "}"
+			l.readChar() // skip "}"
+			return true
+		}
+
+		l.readChar()
+	}
+
+	return false
 }
